@@ -150,16 +150,16 @@ def random_heap(rng, nobj, kinds=('config', 'config', 'list', 'tuple', 'dict', '
         return rng.randint(1, 3)
       if k == 'config':
         slots = sorted(rng.sample([1, 2, 3], rng.randint(0, 3)))
-        items = [{'key': s, 'val': val()} for s in slots]
+        items = [{'key': s, 'val': val(), 'tg': 0} for s in slots]
         o = {'k': 'config', 'fn': rng.choice([1, 2, 3, 4]), 'items': items}
       elif k == 'ntuple':
-        o = {'k': 'ntuple', 'fn': 0, 'items': [{'key': j, 'val': val()} for j in range(2)]}
+        o = {'k': 'ntuple', 'fn': 0, 'items': [{'key': j, 'val': val(), 'tg': 0} for j in range(2)]}
       elif k == 'dict':
         keys = sorted(rng.sample([1, 2, 3, 4], rng.randint(0, 3)))
-        o = {'k': 'dict', 'fn': 0, 'items': [{'key': kk, 'val': val()} for kk in keys]}
+        o = {'k': 'dict', 'fn': 0, 'items': [{'key': kk, 'val': val(), 'tg': 0} for kk in keys]}
       else:
         n = rng.randint(0, 3)
-        o = {'k': k, 'fn': 0, 'items': [{'key': j, 'val': val()} for j in range(n)]}
+        o = {'k': k, 'fn': 0, 'items': [{'key': j, 'val': val(), 'tg': 0} for j in range(n)]}
       heap.append(o)
     # keep only what the root reaches, no shared leaf-only tuples
     root = len(heap)
